@@ -6,7 +6,8 @@
    g = width of the row-number gutter.
    Observation (parsed from the returned string):
      blocks : Seq([lineW : Seq(Nat), names : Seq(name), nlabels : Nat, dataRows : Nat])
-     total  : the number in the "... N rows total" line, or -1                                  *)
+     total  : the number in the "... N rows total" line, or -1
+     stray  : some line (between two "\n") still holds a line boundary character (\r, \v, \f, U+2028, ...)   *)
 EXTENDS Integers, Sequences, FiniteSets
 
 Min2(a, b) == IF a < b THEN a ELSE b
@@ -31,6 +32,7 @@ JudgeFrame(e) ==
   ELSE IF ~o.wellformed THEN "frame:rendering-does-not-have-the-block-structure"
   ELSE IF ~EveryNameShown(in, o) THEN "frame:a-column-name-is-not-shown"
   ELSE IF ~EveryLabelShown(in, o) THEN "frame:a-dtype-label-is-not-shown"
+  ELSE IF o.stray THEN "frame:a-line-boundary-character-of-a-cell-survives-inside-a-line"   \* multi-line strings are shown by their first line
   ELSE IF ~RowsShown(in, o) THEN "frame:not-min(nrow,max_rows)-data-rows-shown"
   ELSE IF ~EqualWidthInBlock(o) THEN "frame:lines-of-a-block-differ-in-display-width"
   ELSE IF ~TotalStated(in, o) THEN "frame:total-row-count-not-stated-exactly-when-rows-are-cut"
